@@ -86,9 +86,11 @@ package bexpr
 //@ func doMatchIsEmpty(matcher, value) (res, err)
 //@   requires matcher != nil
 //@   ensures[C09] err_false: err != nil ==> !res
+//@   ensures[C01,C04] spec: outcome(res, err) == EmptySpec(value)
 //@   assigns nothing
 
 //@ func derefValue(rvalue) (res, ok)
+//@   ensures[C05,C01] spec: res == derefRV(rvalue) && ok == derefOK(rvalue)
 //@   ensures[C09] ok ==> kind(res) != K.Ptr
 //@   ensures[C09] ok && valid(rvalue) ==> valid(res) && rtype(res) == tbase(rtype(rvalue))
 //@   ensures[C09] !valid(rvalue) ==> res == rvalue && ok
@@ -96,6 +98,7 @@ package bexpr
 //@   loop 1:
 //@     invariant valid(old(rvalue)) ==> valid(rvalue) && tbase(rtype(rvalue)) == tbase(rtype(old(rvalue)))
 //@     invariant !valid(old(rvalue)) ==> rvalue == old(rvalue)
+//@     invariant[C05,C01] derefRV(rvalue) == derefRV(old(rvalue)) && derefOK(rvalue) == derefOK(old(rvalue))
 //@     decreases ptrdepth(rtype(rvalue))
 
 //@ func getMatchExprValue(expression, rvalue) (res, err)
@@ -114,6 +117,7 @@ package bexpr
 //@ func doMatchEqual(expression, value) (res, err)
 //@   requires expression != nil && expression.Value != nil
 //@   ensures[C09] err_false: err != nil ==> !res
+//@   ensures[C02,C01] spec: outcome(res, err) == EqSpec(value, expression.Value.Raw)
 //@   assigns nothing
 
 //@ func doMatchIn(expression, value) (res, err)
@@ -126,20 +130,25 @@ package bexpr
 //@     invariant 0 <= i
 
 //@ func doMatchMatches(expression, value) (res, err)
-//@   requires expression != nil && expression.Value != nil
+//@   requires expression != nil && expression.Value != nil && cacheOK(expression.Value)
 //@   ensures[C09] err_false: err != nil ==> !res
+//@   ensures[C01,C13] spec: outcome(res, err) == MatchesSpec(value, expression.Value.Raw)
 //@   assigns nothing
 
 //@ func evaluateNotPresent(ptr, datum) (res)
+//@   ensures[C05,C01] spec: res == (len(ptr.Parts) >= 2 && parentIsMap(datum, ptr.Parts[0:len(ptr.Parts)-1], ptr.Config.TagName, ptr.Config.ValueTransformationHook))
 //@   assigns nothing
 
 //@ func getOpts(opt) (res)
 //@   requires wfOpts(opt)
+//@   ensures[C18,C01,C05,C06] fold: res == FoldOpts(opt)
 //@   assigns nothing
 //@   loop 1:
 //@     invariant -1 <= rangeindex && rangeindex < len(opt)
+//@     invariant[C18,C01,C05,C06] opts == FoldOpts(opt[0:rangeindex+1])
 
 //@ func getDefaultOptions() (res)
+//@   ensures[C18,C01] res == defaultOpts
 //@   assigns nothing
 
 //@ func WithTagName(tagName) (res)
@@ -147,6 +156,7 @@ package bexpr
 //@   assigns nothing
 //@ func WithTagName$1(o) ()
 //@   requires o != nil
+//@   ensures[C18,C01,C06] apply: deref(o) == applyOpt(self, old(deref(o)))
 //@   assigns bexpr.options.withTagName@o
 
 //@ func WithHookFn(fn) (res)
@@ -154,6 +164,7 @@ package bexpr
 //@   assigns nothing
 //@ func WithHookFn$1(o) ()
 //@   requires o != nil
+//@   ensures[C18,C01,C06] apply: deref(o) == applyOpt(self, old(deref(o)))
 //@   assigns bexpr.options.withHookFn@o
 
 //@ func WithMaxExpressions(maxExprCnt) (res)
@@ -161,13 +172,16 @@ package bexpr
 //@   assigns nothing
 //@ func WithMaxExpressions$1(o) ()
 //@   requires o != nil
+//@   ensures[C18,C01,C06] apply: deref(o) == applyOpt(self, old(deref(o)))
 //@   assigns bexpr.options.withMaxExpressions@o
 
 //@ func WithUnknownValue(val) (res)
-//@   ensures[C18] is_ctor: knownOpt(res) && res != nil
+//@   ensures[C18,C05,C01] ctor: res == fn.bexpr.WithUnknownValue$1(fn.bexpr.WithUnknownValue$1.c0(res))
+//@   ensures[C18,C05,C01] cell: fn.bexpr.WithUnknownValue$1.c0(res) != nil && heap(deref.Any)[fn.bexpr.WithUnknownValue$1.c0(res)] == val
 //@   assigns nothing
 //@ func WithUnknownValue$1(o) ()
 //@   requires o != nil
+//@   ensures[C18,C01,C05] apply: deref(o) == applyOpt(self, old(deref(o)))
 //@   assigns bexpr.options.withUnknown@o
 
 //@ func WithLocalVariable(name, path, value) (res)
@@ -175,22 +189,28 @@ package bexpr
 //@   assigns nothing
 //@ func WithLocalVariable$1(o) ()
 //@   requires o != nil
+//@   ensures[C18,C01,C06] apply: deref(o) == applyOpt(self, old(deref(o)))
 //@   assigns bexpr.options.withLocalVariables@o
 
 //@ func getValue(datum, path, opt) (val, present, err)
 //@   requires wfOpts(opt)
+//@   ensures[C05,C06,C01] spec: resOf(val, present, err) == Resolve(datum, path, absOpts(FoldOpts(opt)))
 //@   assigns nothing
 //@   loop 1:
-//@     invariant i < len(opts.withLocalVariables) && -1 <= i && len(path) > 0
+//@     invariant i < len(FoldOpts(opt).withLocalVariables) && -1 <= i && len(path) > 0
+//@     invariant[C05,C06,C01] ResolveFrom(datum, path, absOpts(FoldOpts(opt)), i) == Resolve(datum, old(path), absOpts(FoldOpts(opt)))
+//@     decreases i + 1
 
 //@ func evaluateMatchExpression(expression, datum, opt) (res, err)
 //@   requires wfMatchP(expression) && wfOpts(opt)
 //@   ensures[C09] err_false: err != nil ==> !res
+//@   ensures[C01,C04,C05] spec: outcome(res, err) == EvalMatchP(expression, datum, absOpts(FoldOpts(opt)))
 //@   assigns nothing
 
 //@ func evaluateCollectionExpression(expression, datum, opt) (res, err)
 //@   requires wf(box[*grammar.CollectionExpression](expression)) && wfOpts(opt)
 //@   ensures[C09] err_false: err != nil ==> !res
+//@   ensures[C01,C06,C14] spec: outcome(res, err) == EvalCollP(expression, datum, absOpts(FoldOpts(opt)))
 //@   decreases 2 * astSize(box[*grammar.CollectionExpression](expression))
 //@   assigns nothing
 //@   loop 1:
@@ -199,12 +219,14 @@ package bexpr
 //@ func evaluate(ast, datum, opt) (res, err)
 //@   requires wf(ast) && wfOpts(opt)
 //@   ensures[C09] err_false: err != nil ==> !res
+//@   ensures[C01,C03] spec: outcome(res, err) == Eval(ast, datum, absOpts(FoldOpts(opt)))
 //@   decreases 2 * astSize(ast) + 1
 //@   assigns nothing
 
 //@ func Evaluator.Evaluate(eval, datum) (res, err)
 //@   requires eval != nil && wf(eval.ast)
 //@   ensures[C09] err_false: err != nil ==> !res
+//@   ensures[C01,C18] spec: outcome(res, err) == Eval(eval.ast, datum, mk.AOpts(eval.tagName, eval.valueTransformationHook, eval.unknownVal != nil, heap(deref.Any)[eval.unknownVal], zero[[]localVariable]))
 //@   assigns nothing
 
 //@ func evaluateCollectionExpression$1(i, j) (less)
